@@ -183,6 +183,8 @@ class PathEval:
             keys = self._const_keys(fn, e.slice, at)
             if keys:
                 return {(r, k + (kk,)) for r, k in base for kk in keys}
+            if isinstance(e.slice, ast.Slice):
+                return {(r, k + ("[:]",)) for r, k in base}  # a part of the value (prefix / window), not a walk over all of it
             return {(r, k + ("*",)) for r, k in base}
         if isinstance(e, ast.BoolOp):
             out = set()
